@@ -220,22 +220,22 @@ func genCompositeInput(t *rapid.T, honest []byte) ([]byte, string) {
 	case "byteset":
 		out := append([]byte(nil), honest...)
 		if len(out) > 0 {
-			out[rapid.IntRange(0, len(out)-1).Draw(t, "pos")] = rapid.SampledFrom([]byte{0, 0xff, 0x80, 0x7f, 1, 0xc0}).Draw(t, "val")
+			out[uniformInt(t, 0, len(out)-1, "pos")] = rapid.SampledFrom([]byte{0, 0xff, 0x80, 0x7f, 1, 0xc0}).Draw(t, "val")
 		}
 		return out, kind
 	case "truncate":
 		if len(honest) == 0 {
 			return nil, kind
 		}
-		return append([]byte(nil), honest[:rapid.IntRange(0, len(honest)-1).Draw(t, "tl")]...), kind
+		return append([]byte(nil), honest[:uniformInt(t, 0, len(honest)-1, "tl")]...), kind
 	case "extend":
 		return append(append([]byte(nil), honest...), rapid.SliceOfN(rapid.Byte(), 1, 64).Draw(t, "ext")...), kind
 	case "splice":
 		if len(honest) < 2 {
 			return nil, kind
 		}
-		a := rapid.IntRange(0, len(honest)-1).Draw(t, "a")
-		b := rapid.IntRange(a, len(honest)).Draw(t, "b")
+		a := uniformInt(t, 0, len(honest)-1, "a")
+		b := uniformInt(t, a, len(honest), "b")
 		return append(append([]byte(nil), honest[:a]...), honest[b:]...), kind
 	case "random":
 		n := rapid.IntRange(0, 2*len(honest)+8).Draw(t, "n")
@@ -247,12 +247,12 @@ func genCompositeInput(t *rapid.T, honest []byte) ([]byte, string) {
 	case "ff":
 		return bytes.Repeat([]byte{0xff}, rapid.IntRange(0, 2*len(honest)+8).Draw(t, "n")), kind
 	case "dup-prefix":
-		n := rapid.IntRange(0, len(honest)).Draw(t, "n")
+		n := uniformInt(t, 0, len(honest), "n")
 		return append(append([]byte(nil), honest[:n]...), honest...), kind
 	default: // protobuf-style length / varint fields set to huge values
 		out := append([]byte(nil), honest...)
 		if len(out) > 1 {
-			p := rapid.IntRange(0, len(out)-2).Draw(t, "pos")
+			p := uniformInt(t, 0, len(out)-2, "pos")
 			out[p], out[p+1] = 0xff, 0xff
 		}
 		return out, kind
@@ -276,6 +276,41 @@ func TestC04_Composite(t *testing.T) {
 		}
 		ev.Case(kind != "honest", fmt.Sprintf("composite %s %s %x", tg.name, kind, in), "composite:"+tg.name, "composite-kind:"+kind)
 	})
+}
+
+// TestC04_CompositeCuts: EVERY proper prefix and every proper suffix of the honest message of every
+// composite parser (a truncation bug usually lives in a window of a few lengths: "header complete
+// but fewer than 16 bytes follow"); thorough tier additionally every single byte set to 0x00 / 0xff.
+func TestC04_CompositeCuts(t *testing.T) {
+	ev := evFor("C04")
+	for i, tg := range getCompositeTargets() {
+		if !mine(i) {
+			continue
+		}
+		try := func(kind string, in []byte) {
+			if pn := safely(func() { tg.parse(in) }); pn != "" {
+				violationOrKnown(t, ev, "C04/composite/"+tg.name, "%s panicked on a %s input (%d bytes): %s\ninput=%x", tg.name, kind, len(in), pn, in)
+			}
+			ev.Case(true, fmt.Sprintf("composite %s %s len=%d", tg.name, kind, len(in)), "composite:"+tg.name, "composite-kind:"+kind)
+		}
+		for n := 0; n < len(tg.honest); n++ {
+			try("prefix", append([]byte(nil), tg.honest[:n]...))
+			if n > 0 {
+				try("suffix", append([]byte(nil), tg.honest[n:]...))
+			}
+		}
+		if tier() == "thorough" {
+			for n := 0; n < len(tg.honest); n++ {
+				for _, v := range []byte{0x00, 0xff} {
+					if tg.honest[n] != v {
+						in := append([]byte(nil), tg.honest...)
+						in[n] = v
+						try("byteset-enum", in)
+					}
+				}
+			}
+		}
+	}
 }
 
 // Native fuzz targets (thorough tier: coverage-guided; quick tier: the seed corpus is replayed as
